@@ -1,6 +1,6 @@
 (* C42 — property theorems only.  Each is closed by `exact <lemma>` and followed by Print Assumptions. *)
 From Coq Require Import List NArith Bool Arith.
-From Verif.C42 Require Import Model Spec Proofs ProofsApply ProofsFinal ProofsIds ProofsSpec Witness.
+From Verif.C42 Require Import Model Spec Proofs ProofsApply ProofsFinal ProofsIds ProofsSpec ProofsPin Witness.
 Import ListNotations.
 Open Scope N_scope.
 
@@ -47,10 +47,9 @@ Print Assumptions c42_completed_sync_is_desired.
    some unit's block (nothing stale); and, when distinct units have distinct ids, the i-th backend of a unit is its
    i-th ready endpoint in the order "ready local ones, then ready remote ones".
    Missing for the full statement: (a) NoDup (map u_id us) is NOT derivable for the pinned code
-   (c42_final_exact_refuted); it is proved for c_reset = true in c42_final_exact below; (b) the units' frontends are identified with Spec.spec_frontends in
-   c42_frontends_exactly_requested / c42_requested_frontend_served below; what stays checked only by the oracle
-   final_exactb (every correspondence case, the examples) is that, in a state where no two services claim the same
-   frontend key, the value stored under a key is the one of the unit found there (uniqueness of keys across units). *)
+   (c42_final_exact_refuted); it is proved for c_reset = true in c42_final_exact_units below; (b) the units' frontends are identified with Spec.spec_frontends in
+   c42_frontends_exactly_requested / c42_requested_frontend_served below, and everything is put together in
+   c42_final_exact. *)
 Theorem c42_final_exact_partial : forall cfg sy d st v fF fB tr sy' d',
   consistent (fst d) (snd d) -> exec_apply cfg sy d st v fF fB tr = Some (sy', d', false) ->
   exists next us,
@@ -72,8 +71,8 @@ Print Assumptions c42_final_exact_partial.
    repaired tree): in every Syncer state reachable from a fresh Syncer by any history, distinct applySvc units get
    distinct NAT ids (ids in prevSvcMap stay below nextSvcID and injective), hence after every completed sync every
    unit's backend block is exactly its ready endpoints, local ones first, and nothing else is in the maps.
-   (Item (b) of c42_final_exact_partial is still checked, not proved.) *)
-Theorem c42_final_exact : forall cfg ops d0 states sy d st v fF fB tr sy' d',
+   (Unit-level form; c42_final_exact states it per requested frontend.) *)
+Theorem c42_final_exact_units : forall cfg ops d0 states sy d st v fF fB tr sy' d',
   c_reset cfg = true -> consistent (fst d0) (snd d0) ->
   run_history cfg new_syncer d0 ops = Some (states, sy, d) ->
   exec_apply cfg sy d st v fF fB tr = Some (sy', d', false) ->
@@ -90,7 +89,7 @@ Theorem c42_final_exact : forall cfg ops d0 states sy d st v fF fB tr sy' d',
          exists e, nth_error (ready_local (u_eps u) ++ ready_remote (u_eps u)) (N.to_nat i) = Some e
                    /\ lookup pair_eqb (snd d') (u_id u, i) = Some (ep_addr e)).
 Proof. exact final_exact_reset. Qed.
-Print Assumptions c42_final_exact.
+Print Assumptions c42_final_exact_units.
 
 (* the Syncer-state invariant behind it: one Apply keeps it *)
 Theorem c42_ids_stay_distinct : forall cfg sy d st v fF fB tr sy' d' err,
@@ -124,6 +123,32 @@ Theorem c42_requested_frontend_served : forall npips prev st v next next' us s e
   exists u fv, In u us /\ In (k, fv) (unit_frontends npips u) /\ value_meets_spec kd s eps u fv.
 Proof. exact units_cover_spec. Qed.
 Print Assumptions c42_requested_frontend_served.
+
+(* FINAL EXACT, full statement, for EVERY history of a Syncer that empties prevSvcMap at every startup sync
+   (c_reset = true: the repaired tree; for the pinned code see c42_final_exact_refuted).  After every completed sync
+   of a state in which no two services claim the same frontend key (spec_wf), for every schedule:
+   - every frontend the services ask for (cluster IP, LB IPs, external IPs, node ports, per-remote-node node ports)
+     is in the map and is exact (frontend_exact): its count/local count are those of a list `served` whose ready
+     members are exactly the endpoints it must list, the backend entries (id,0..count-1) are those ready endpoints in
+     the order "ready local, then ready remote", affinity is the service's, and the local-only flags are the ones the
+     traffic policy requires;
+   - there is no other frontend;
+   - every backend entry is referred to by a frontend (id and ordinal below its count).
+   Not proved: that the boolean oracle final_exactb (used on the implementation's maps) is equivalent to this Prop
+   form; the oracle additionally demands nothing about ExternalIP / per-remote-node frontends' local-only flags. *)
+Theorem c42_final_exact : forall cfg ops d0 states sy d st v fF fB tr sy' d',
+  c_reset cfg = true -> consistent (fst d0) (snd d0) ->
+  run_history cfg new_syncer d0 ops = Some (states, sy, d) ->
+  exec_apply cfg sy d st v fF fB tr = Some (sy', d', false) ->
+  spec_wf (c_npips cfg) st ->
+  (forall s eps k kd, In (s, eps) st -> In (k, kd) (spec_frontends (c_npips cfg) s eps) ->
+     exists fv, lookup fkey_eqb (fst d') k = Some fv /\ frontend_exact (snd d') s eps kd fv)
+  /\ (forall k, lookup fkey_eqb (fst d') k <> None ->
+        exists s eps kd, In (s, eps) st /\ In (k, kd) (spec_frontends (c_npips cfg) s eps))
+  /\ (forall id i a, lookup pair_eqb (snd d') (id, i) = Some a ->
+        exists k fv, lookup fkey_eqb (fst d') k = Some fv /\ fv_id fv = id /\ i < fv_count fv).
+Proof. exact final_exact_full. Qed.
+Print Assumptions c42_final_exact.
 
 (* the order used for a unit's backends lists exactly the ready endpoints (as a multiset), local ones first *)
 Theorem c42_ready_local_first : forall eps,
